@@ -1,4 +1,167 @@
-import FiddleModel.Model.Partial
+/-
+C04 — a built Partial behaves like functools.partial; ArgFactory arguments are fresh per call.
+
+Model: `Model/Partial.lean`. A built partial holds its configured arguments as trees `AV`
+(build-time objects with identities, containers, built ArgFactories); one call evaluates the
+effective arguments with an allocation counter, so "fresh" = identity allocated during this
+call, "uncopied" = build-time identity delivered unchanged. The theorems quantify over every
+argument tree, every nesting, every counter value and every sequence of calls.
+
+Carried by the correspondence check only: the agreement of `bindRV` with Python's call
+semantics for the signatures of C01 (covered by C01's model) and the positional/keyword split
+`_build_partial` performs before the call (the driver runs the model's `toArgsKwargs`).
+-/
+import FiddleModel.Lemmas.PartialL
+
 namespace Fiddle
-theorem C04_placeholder : True := trivial
+
+/-- An argument that involves no ArgFactory is passed through uncopied — same build-time
+    identities at every depth — and evaluating it allocates nothing. -/
+theorem C04_no_factory_passthrough (a : AV) (ctr : Nat) (h : a.hasFactory = false) :
+    a.invoke ctr = some (a.embed, ctr) ∧ a.embed.freshIds = [] :=
+  ⟨AV.invoke_noFactory a ctr h, AV.embed_noFresh a⟩
+
+/-- ... hence every call delivers the very same object for it (nested Configs are built once,
+    at build time, and reused). -/
+theorem C04_no_factory_same_every_call (a : AV) (c1 c2 : Nat) (h : a.hasFactory = false) :
+    (a.invoke c1).map (·.1) = (a.invoke c2).map (·.1) := by
+  simp [AV.invoke_noFactory a _ h]
+
+/-- Every identity allocated while evaluating an argument lies in this evaluation's own
+    window of the allocation counter. -/
+theorem C04_fresh_in_window (a : AV) (ctr : Nat) (v : RV) (ctr' : Nat)
+    (h : a.invoke ctr = some (v, ctr')) : ctr ≤ ctr' ∧ ∀ n ∈ v.freshIds, ctr ≤ n ∧ n < ctr' :=
+  AV.invoke_range a ctr v ctr' h
+
+/-- An ArgFactory is evaluated anew by every evaluation: the result is a new object whose
+    identity is allocated now, later than everything allocated for its own arguments. -/
+theorem C04_factory_new_object (fn : String) (sig : Sig) (args : List AV) (kw : List (String × AV))
+    (ctr : Nat) (v : RV) (ctr' : Nat) (h : (AV.fac fn sig args kw).invoke ctr = some (v, ctr')) :
+    ∃ n slots var kwr, v = .obj n fn slots var kwr ∧ ctr ≤ n ∧ ctr' = n + 1 ∧
+      ∀ m ∈ RV.freshIdsKw slots ++ RV.freshIdsL var ++ RV.freshIdsKw kwr, ctr ≤ m ∧ m < n := by
+  have hr := AV.invoke_range _ _ _ _ h
+  simp only [AV.invoke] at h
+  split at h
+  · cases h
+  · rename_i as ctr1 h1
+    split at h
+    · cases h
+    · rename_i ks ctr2 h2
+      split at h
+      · cases h
+      · rename_i slots var kwr hb
+        simp only [Option.some.injEq, Prod.mk.injEq] at h
+        obtain ⟨rfl, rfl⟩ := h
+        obtain ⟨l1, r1⟩ := AV.invokeArgs_range args ctr as ctr1 h1
+        obtain ⟨l2, r2⟩ := AV.invokeKw_range kw ctr1 ks ctr2 h2
+        refine ⟨ctr2, slots, var, kwr, rfl, by omega, rfl, ?_⟩
+        intro m hm
+        have := bindRV_ids sig as ks slots var kwr hb m hm
+        rcases List.mem_append.mp this with hm | hm
+        · have := r1 m hm; omega
+        · have := r2 m hm; omega
+
+/-- A container that contains an ArgFactory (at any depth) is rebuilt by every evaluation. -/
+theorem C04_container_with_factory_copied (i : Nat) (kind : NKind) (ty : String)
+    (ch : List (PElem × AV)) (hf : AV.hasFactoryL ch = true) (ctr : Nat) (v : RV) (ctr' : Nat)
+    (h : (AV.cont i kind ty ch).invoke ctr = some (v, ctr')) :
+    ∃ n rs, v = .cont (.fresh n) kind ty rs ∧ ctr ≤ n ∧ ctr' = n + 1 := by
+  simp only [AV.invoke, hf, if_true] at h
+  split at h
+  · cases h
+  · rename_i rs ctr1 h1
+    simp only [Option.some.injEq, Prod.mk.injEq] at h
+    obtain ⟨rfl, rfl⟩ := h
+    exact ⟨ctr1, rs, rfl, (AV.invokeCh_range ch ctr rs ctr1 h1).1, rfl⟩
+
+/-- A container with no ArgFactory below it keeps its build-time identity. -/
+theorem C04_container_without_factory_kept (i : Nat) (kind : NKind) (ty : String)
+    (ch : List (PElem × AV)) (hf : AV.hasFactoryL ch = false) (ctr : Nat) :
+    (AV.cont i kind ty ch).invoke ctr = some (.cont (.build i) kind ty (AV.embedCh ch), ctr) := by
+  have := AV.invoke_noFactory (.cont i kind ty ch) ctr (by simpa [AV.hasFactory] using hf)
+  simpa [AV.embed] using this
+
+/-- Ids delivered by any call of a sequence started at `ctr` are ≥ `ctr`. -/
+theorem calls_lower (p : BuiltPartial) : ∀ (cs : List CallArgs) (ctr : Nat),
+    ∀ r ∈ p.calls cs ctr, ∀ v, r = some v → ∀ n ∈ v.freshIds, ctr ≤ n
+  | [], _, r, hr, _, _, _, _ => by simp [BuiltPartial.calls] at hr
+  | c :: cs, ctr, r, hr, v, hv, n, hn => by
+    simp only [BuiltPartial.calls] at hr
+    split at hr
+    · rcases List.mem_cons.mp hr with rfl | hr
+      · cases hv
+      · exact calls_lower p cs ctr r hr v hv n hn
+    · rename_i v1 ctr1 h1
+      have hw := AV.invoke_range _ _ _ _ h1
+      rcases List.mem_cons.mp hr with rfl | hr
+      · cases hv; exact (hw.2 n hn).1
+      · have := calls_lower p cs ctr1 r hr v hv n hn; omega
+
+/-- Objects created for different calls of the built partial are distinct: no identity
+    allocated during one call is delivered by another call — for every call sequence. -/
+theorem C04_calls_share_no_fresh_object (p : BuiltPartial) : ∀ (cs : List CallArgs) (ctr : Nat),
+    List.Pairwise (fun a b => ∀ va vb, a = some va → b = some vb →
+      ∀ n, n ∈ va.freshIds → n ∉ vb.freshIds) (p.calls cs ctr)
+  | [], _ => by simp [BuiltPartial.calls]
+  | c :: cs, ctr => by
+    simp only [BuiltPartial.calls]
+    split
+    · refine List.pairwise_cons.mpr ⟨?_, C04_calls_share_no_fresh_object p cs ctr⟩
+      intro b _ va vb ha; cases ha
+    · rename_i v1 ctr1 h1
+      refine List.pairwise_cons.mpr ⟨?_, C04_calls_share_no_fresh_object p cs ctr1⟩
+      intro b hb va vb ha hvb n hn hn'
+      cases ha
+      have hw := AV.invoke_range _ _ _ _ h1
+      have := calls_lower p cs ctr1 b hb vb hvb n hn'
+      have := (hw.2 n hn).2
+      omega
+
+/-- Call-time keyword arguments override configured ones; the others are kept. -/
+theorem C04_call_keywords_override (cfg call : List (String × AV)) (k : String) :
+    (overrideKw cfg call).find? (fun kv => kv.1 == k) =
+      if call.any (fun c => c.1 == k) then call.find? (fun kv => kv.1 == k)
+      else cfg.find? (fun kv => kv.1 == k) := by
+  unfold overrideKw
+  rw [List.find?_append]
+  by_cases hc : call.any (fun c => c.1 == k) = true
+  · have : (cfg.filter (fun kv => !call.any (fun c => c.1 == kv.1))).find? (fun kv => kv.1 == k)
+        = none := by
+      rw [List.find?_eq_none]
+      intro x hx
+      simp only [List.mem_filter] at hx
+      intro hk
+      have e : x.1 = k := by simpa using hk
+      rw [e] at hx
+      simp [hc] at hx
+    simp [this, hc]
+  · have hn : call.find? (fun kv => kv.1 == k) = none := by
+      rw [List.find?_eq_none]
+      intro x hx hk
+      apply hc
+      exact List.any_eq_true.mpr ⟨x, hx, hk⟩
+    simp only [hc, hn, Option.or_none]
+    rw [List.find?_filter]
+    simp only [Bool.false_eq_true, if_false]
+    congr 1
+    funext kv
+    by_cases e : kv.1 = k
+    · subst e; simp [hc]
+    · simp [e]
+
+/-! ## Non-vacuity: a list holding a factory next to a shared plain container. -/
+
+private def argTree : AV :=
+  .cont 7 .list "" [(.index 0, .fac "f" [] [] []), (.index 1, .cont 3 .dict "" [(.key "k", .leaf 1 "x")])]
+
+example : argTree.hasFactory = true ∧
+    argTree.invoke 10 = some
+      (.cont (.fresh 11) .list ""
+        [(.index 0, .obj 10 "f" [] [] []),
+         (.index 1, .cont (.build 3) .dict "" [(.key "k", .leaf 1 "x")])], 12) := by
+  refine ⟨by decide, ?_⟩
+  simp [argTree, AV.invoke, AV.invokeCh, AV.invokeArgs, AV.invokeKw,
+    AV.hasFactoryL, AV.hasFactory, bindRV, pyCall, Sig.positionalParams, Sig.hasVp,
+    pyCall.kwLoop, pyCall.fill, Sig.namedParams]
+
 end Fiddle
